@@ -317,6 +317,15 @@ func (c *FnCtx) specCall(env *Env, x *ast.CallExpr) Val {
 				c.unsup(x, "fresh() outside postcondition")
 			}
 			return boolVal(and(app(">=", p.T, env.old.alloc), app(">", p.T, "0")))
+		case "fst", "snd":
+			v := c.eval(env, x.Args[0])
+			if len(v.Tuple) < 2 {
+				c.unsup(x, "%s of a non-tuple", id.Name)
+			}
+			if id.Name == "fst" {
+				return v.Tuple[0]
+			}
+			return v.Tuple[1]
 		case "sliceptr":
 			s := c.eval(env, x.Args[0])
 			return mathInt(app("sl_ptr", s.T))
@@ -684,6 +693,11 @@ func (c *FnCtx) specGoCall(env *Env, x *ast.CallExpr) Val {
 	c.noSafety = true
 	c.inSpec++
 	defer func() { c.noSafety = saveNS; c.inSpec-- }()
+	if ct := c.E.Contracts[key]; ct != nil && !ct.Inline {
+		// a function under contract is used through its contract (pure functions: an
+		// uninterpreted function of the arguments, so that two evaluation paths can be compared)
+		return c.callFunc(cenv, fn, recv, args, x, nil)
+	}
 	fi := c.E.ByObj[fn.Origin()]
 	if fi == nil || fi.Decl == nil || fi.Decl.Body == nil {
 		c.unsup(x, "spec: function %s has no body to evaluate", key)
